@@ -1575,6 +1575,11 @@ class IH5StoreEngine:
                 elif c < 0.8 and profile in ("immutable", "merge") and merge_targets:
                     if s["writable"] and g.random() < 0.7:
                         do_commit(i)
+                    if g.random() < 0.25:
+                        # onto a name that is taken (another record, or the record itself as a
+                        # "compact in place" attempt): must be refused and must not touch a file
+                        emit({"op": "merge", "rec": i, "target": g.choice(recs)})
+                        continue
                     t = merge_targets.pop(0)
                     cfg["classes"][str(t)] = cfg["classes"][str(i)]
                     emit({"op": "merge", "rec": i, "target": t})
